@@ -7,25 +7,25 @@ import JsonbModel.Proofs.TranslatedAgreeJ6
 
 set_option linter.unusedSimpArgs false
 set_option linter.unusedVariables false
-set_option linter.unnecessarySeqFocus false
-set_option linter.unusedTactic false
 
 namespace Jsonb.TrAgree
 open Jsonb.PathPrint
 
 theorem int_compare_gt (x : Int) (h : x > 0) : compare x 0 = .gt := by
-  rw [compare_gt_iff_gt]; exact h
+  have h1 : ¬ x < 0 := by omega
+  have h2 : ¬ x = 0 := by omega
+  simp [compare, compareOfLessAndEq, h1, h2]
 theorem int_compare_lt (x : Int) (h : x < 0) : compare x 0 = .lt := by
-  rw [compare_lt_iff_lt]; exact h
+  simp [compare, compareOfLessAndEq, h]
 theorem int_compare_eq (x : Int) (h : x = 0) : compare x 0 = .eq := by
-  rw [compare_eq_iff_eq]; exact h
+  subst h; rfl
 
 theorem index_fmt_agrees (i : Index) (f : Bytes) :
-    Tr.Display.Index.fmt (ofIndex i) f = .ok (f ++ printIndex i) := by
+    Tr.Display.Index.fmt (ofIdx i) f = .ok (f ++ printIndex i) := by
   cases i with
-  | index n => unfold Tr.Display.Index.fmt ofIndex printIndex; disp_simp
+  | index n => unfold Tr.Display.Index.fmt ofIdx printIndex; disp_simp
   | last n =>
-    unfold Tr.Display.Index.fmt ofIndex printIndex
+    unfold Tr.Display.Index.fmt ofIdx printIndex
     disp_simp
     by_cases h1 : n > 0
     · simp [int_compare_gt n h1, h1]
